@@ -257,18 +257,21 @@ def check (d : Desc) (n : Net) : List Finding :=
         (fl.filter (·.dst.niName == dst)).filterMap fun flw =>
           match routeOfFlow d n flw with
           | some (steps, .delivered c _) =>
-            if c != dst then none else
             -- first router on the path
             match steps.head? with
             | none => none
             | some s0 =>
               match potOf pot s0.router with
               | some d0 =>
-                -- routers traversed = steps.length; shortest possible = d0 (edges from s0.router to dst)
+                -- routers traversed = steps.length; shortest possible = d0 (edges from s0.router to dst).  The count
+                -- is the flit's, wherever it ends: a flit for `dst` that leaves the network elsewhere after another
+                -- number of routers has not traversed the hop distance between the two either
                 if steps.length == d0 then none
+                else if c != dst then
+                  some (fnd "not-shortest" flw.site s!"{steps.length} routers traversed (leaving at {c}), distance to {dst} is {d0}")
                 else some (fnd "not-shortest" flw.site s!"{steps.length} routers traversed, distance {d0}")
-              | none => some (fnd "shortest-certificate" flw.site "no potential at first router")
-          | _ => none   -- non-delivery is C02/C03's finding
+              | none => if c != dst then none else some (fnd "shortest-certificate" flw.site "no potential at first router")
+          | _ => none   -- a flit that never leaves the network is C02/C03's finding
 
 end C14
 
